@@ -526,7 +526,15 @@ class Unit:
             else:
                 out.append(c)
         out.append(CANARY)
-        return '\n'.join(out) + '\n'
+        txt = '\n'.join(out) + '\n'
+        # an H-marker assertion (an open finding: it FAILS on the unchanged tree) must not leak into the obligations after it: the verifier assumes a failed assertion,
+        # and a marker that is plainly false in its context would discharge everything that follows vacuously.  Each is checked in a sub-proof that exports nothing.
+        import os as _os
+        if _os.environ.get('VERIF_POISON_PROBE'):       # development probe: `assert(false)` right after every H-marker assertion must FAIL (be reported), else the marker is plainly false in its context
+            txt = re.sub(r'^([ \t]*)(assert\(.*\);[ \t]*// @@A:H_\w+)[ \t]*$', r'\1\2\n\1assert(true) by { assert(false); } // @@A:POISON_PROBE', txt, flags=re.M)
+        elif getattr(self, 'isolate_h', False):
+            txt = re.sub(r'^([ \t]*)assert\((.*)\);[ \t]*// @@A:(H_\w+)[ \t]*$', r'\1assert(true) by { assert(\2); } // @@A:\3', txt, flags=re.M)
+        return txt
 
 
 # ---------------------------------------------------------------------------------------------------------------------
